@@ -400,6 +400,16 @@ static int vi_col2off(struct lbuf *lb, int row, int col)
 	return ln ? ren_off(ln, col) : 0;
 }
 
+static int vi_off2col(struct lbuf *lb, int row, int off);
+
+/* the column at which to show the cursor: xcol while it is on the cursor's character */
+static int vi_curcol(int xcol)
+{
+	if (vi_col2off(xb, xrow, xcol) != xoff)	/* xcol is beyond the end of the line */
+		return vi_off2col(xb, xrow, xoff);
+	return xcol;
+}
+
 static int vi_off2col(struct lbuf *lb, int row, int off)
 {
 	char *ln = lbuf_get(lb, row);
@@ -1827,7 +1837,7 @@ static void vi(void)
 		vi_wfix();
 		if (mod)
 			xcol = vi_off2col(xb, xrow, xoff);
-		n = ren_cursor(lbuf_get(xb, xrow), xcol);	/* where the cursor is shown */
+		n = ren_cursor(lbuf_get(xb, xrow), vi_curcol(xcol));	/* where the cursor is shown */
 		if (n >= xleft + xcols)
 			xleft = n - xcols / 2;
 		if (n < xleft)
@@ -1869,7 +1879,7 @@ static void vi(void)
 				vi_drawmsg();
 		}
 		term_pos(xrow - xtop, vi_pos(lbuf_get(xb, xrow),
-				ren_cursor(lbuf_get(xb, xrow), xcol)));
+				ren_cursor(lbuf_get(xb, xrow), vi_curcol(xcol))));
 		term_commit();
 		lbuf_modified(xb);
 	}
